@@ -250,7 +250,7 @@ func c12LedgerProperty(t *rapid.T) {
 			target := head() + uint64(rapid.IntRange(1, 3).Draw(t, "above"))
 			want := verifhook.ErrorRollbackToHigherNumber
 			if maxHead > 12 && rapid.Bool().Draw(t, "deep") {
-				target = uint64(rapid.IntRange(1, int(maxHead)-11).Draw(t, "deepTarget"))
+				target = uint64(rapid.IntRange(0, int(maxHead)-11).Draw(t, "deepTarget")) // incl. 0: only allowed while the journal of block 1 is retained
 				if target >= head() {
 					t.Skip("not below head")
 				}
